@@ -73,7 +73,7 @@ func c15RLInts(rl corev1.ResourceList) map[string]int64 {
 	}
 	m := map[string]int64{}
 	for k, v := range rl {
-		m[string(k)] = v.Value()
+		m[string(k)] = v.MilliValue() // exact: Value() rounds up to whole units (seed C15-6)
 	}
 	return m
 }
@@ -265,8 +265,10 @@ type c15Cfg struct {
 
 var (
 	c15NSVals  = [][]string{nil, {"ns1"}, {"ns1", "ns2"}}
-	c15MaxVals = []map[string]int64{{"cpu": 4}, {"cpu": 4, "memory": 4}, {"cpu": 2}}
-	c15MinVals = []map[string]int64{nil, {"cpu": 1}, {"cpu": 3}, {"cpu": 5}, {"memory": 1}}
+	// amounts in milli units; besides whole units two fractional ones that round up to the same whole unit (1200m and
+	// 1500m: a comparison on rounded values cannot tell them apart)
+	c15MaxVals = []map[string]int64{{"cpu": 4000}, {"cpu": 4000, "memory": 4000}, {"cpu": 2000}, {"cpu": 1200}}
+	c15MinVals = []map[string]int64{nil, {"cpu": 1000}, {"cpu": 3000}, {"cpu": 5000}, {"memory": 1000}, {"cpu": 1500}}
 )
 
 func c15Short(p string) string {
@@ -280,7 +282,7 @@ func c15Short(p string) string {
 // both dimensions, also with the value 0 (which the children's-sum clause cannot see), and are changed one at a time, so
 // that a parent can try to drop a dimension one of its children still declares and a child can try to declare one its
 // parent does not ("resource dimensions agree along the tree", for min: a child's min keys are among its parent's).
-var c15KeyMins = []map[string]int64{nil, {"cpu": 1}, {"cpu": 1, "memory": 0}, {"cpu": 3, "memory": 2}, {"cpu": 3}, {"memory": 0}}
+var c15KeyMins = []map[string]int64{nil, {"cpu": 1000}, {"cpu": 1000, "memory": 0}, {"cpu": 3000, "memory": 2000}, {"cpu": 3000}, {"memory": 0}}
 
 func c15BuildKeyOps(cfg c15Cfg) []c15Op {
 	var ops []c15Op
@@ -378,7 +380,7 @@ func c15RL(m map[string]int64) corev1.ResourceList {
 	}
 	rl := corev1.ResourceList{}
 	for k, v := range m {
-		rl[corev1.ResourceName(k)] = *resource.NewQuantity(v, resource.DecimalSI)
+		rl[corev1.ResourceName(k)] = *resource.NewMilliQuantity(v, resource.DecimalSI) // amounts are in milli units
 	}
 	return rl
 }
